@@ -4,10 +4,44 @@ use crate::gen::Gen;
 use crate::model::Model;
 use crate::ops::*;
 
-pub fn group_op(_g: &mut Gen, _model: &Model, c: usize) -> Op {
-    Op::Ping { c }
+pub fn group_op(g: &mut Gen, model: &Model, c: usize) -> Op {
+    let topics: Vec<(u32, u32)> = model.streams.values().flat_map(|s| s.topics.values().map(move |t| (s.id, t.id))).collect();
+    if topics.is_empty() {
+        return Op::Ping { c };
+    }
+    let (sid, tid) = *g.rng.pick(&topics);
+    let t = &model.streams[&sid].topics[&tid];
+    let groups: Vec<(u32, String)> = t.groups.values().map(|x| (x.id, x.name.clone())).collect();
+    let stream = IdRef::Num(sid);
+    let topic = if g.rng.chance(g.cfg.named_ids_chance) { IdRef::Name(t.name.clone()) } else { IdRef::Num(tid) };
+    let gref = |g: &mut Gen, x: &(u32, String)| if g.rng.chance(g.cfg.named_ids_chance) { IdRef::Name(x.1.clone()) } else { IdRef::Num(x.0) };
+    let invalid = g.rng.chance(g.cfg.invalid_chance);
+    if groups.is_empty() || g.rng.chance(0.12) {
+        let id = match g.rng.below(3) {
+            0 => None,
+            _ => Some(if invalid && !groups.is_empty() { g.rng.pick(&groups).0 } else { 1 + g.rng.below(4) as u32 }),
+        };
+        let name = if invalid && !groups.is_empty() { g.rng.pick(&groups).1.clone() } else { g.fresh_name("group-") };
+        return Op::CreateGroup { c, stream, topic, id, name };
+    }
+    let x = g.rng.pick(&groups).clone();
+    let group = gref(g, &x);
+    match g.rng.below(20) {
+        0 => Op::DeleteGroup { c, stream, topic, group },
+        1..=8 => Op::JoinGroup { c, stream, topic, group },
+        9..=11 => Op::LeaveGroup { c, stream, topic, group },
+        12 => Op::GetGroups { c, stream, topic },
+        13 => Op::GetGroup { c, stream, topic, group },
+        _ => {
+            // poll as the group, mostly the way group members do: next + auto-commit, no partition
+            let n = t.partitions.len() as u32;
+            let partition = if g.rng.chance(0.25) && n > 0 { Some(1 + g.rng.below(n as u64) as u32) } else { None };
+            let kind = if g.rng.chance(0.8) { PollKind::Next } else { PollKind::Offset(0) };
+            Op::Poll { c, stream, topic, partition, who: Who::Group(group), kind, count: *g.rng.pick(&[1, 2, 5, 10, 100]), auto_commit: g.rng.chance(0.8) }
+        }
+    }
 }
 
-pub fn user_op(_g: &mut Gen, _model: &Model, c: usize) -> Op {
-    Op::Ping { c }
+pub fn user_op(g: &mut Gen, model: &Model, c: usize) -> Op {
+    crate::gen_auth::user_op(g, model, c)
 }
